@@ -99,8 +99,17 @@ CONFIG = dict(
     hypothesis_backed=["BGP-LS attribute TLVs", "TUNNEL_ENCAP", "PREFIX_SID", "FlowSpec v4/v6/VPN NLRI", "EVPN NLRI", "MUP NLRI",
                        "SR-policy NLRI", "RTC NLRI", "BGP-LS NLRI", "api::MpReach / TunnelEncap / PrefixSid / Ls / EVPN / "
                        "SR-policy / RTC / FlowSpec API messages (never-panics, safe, stable, listed as sent)",
-                       "RPKI validation state shown by ListPath"],
-    modelled_not_verified=["kinds listed under hypothesis_backed: explored implementation-only (pristine GoBGP fixtures must round-trip "
+                       "fields of the TunnelEncap / SR-policy / Ls / LsAddrPrefix / FlowSpec / MpReach messages that are narrower on the "
+                       "wire than in the message (refused when out of range, listed as sent otherwise)",
+                       "RPKI validation state shown by ListPath",
+                       "AddPath -> ListPath -> DeletePath(uuid) -> ListPath on the global table and into / from a VRF (what is kept "
+                       "under the uuid is what was inserted): model and implementation compared, no theorem for the VRF case"],
+    modelled_not_verified=["the VRF variant of the grpc case (vrf_export_path, collect_vrf_paths) and the number of paths listed after "
+                           "DeletePath(uuid): in the model and compared with the implementation; check_run_ok covers the global table only "
+                           "and the oracle has no clause on the add / delete life cycle (not this property's subject)",
+                           "convert::family_from_api (Path.family, ListPath family) and the policy converters (afi_safi_in, prefix-set mask "
+                           "lengths) still narrow API numbers with `as`: not driven",
+                           "kinds listed under hypothesis_backed: explored implementation-only (pristine GoBGP fixtures must round-trip "
                            "exactly, one oracle clause per TLV type / NLRI type; mutated ones must not panic and must display stably; "
                            "API messages of these kinds must never panic, and what is accepted must be safe, stable and listed as sent)",
                            "the RPKI validation state ListPath shows (collect_paths phase 2, rpki_validation_to_api): observed through "
@@ -524,7 +533,7 @@ def ls_tlv_types(b):
 
 def gen_explore_api(r):
     """prost messages of kinds outside the model: must never panic; what is accepted must be safe and stable"""
-    k = r.below(11)
+    k = r.below(15)
     strs = lambda n: "(%s)" % " ".join(astr(r, r.pick(["ip4", "ip6"]), 30) for _ in range(n))
     n6 = lambda: " ".join(str(r.pick([0, 1, 2, 3, 4, 5, 24, 33, 129, 255, 256, 16777215, 16777216, 4294967295])) for _ in range(6))
     if k == 0:
@@ -549,6 +558,18 @@ def gen_explore_api(r):
     if k == 9:
         fam = r.pick([(1, 133), (2, 133), (1, 1), (1, 134), (25, 70)])
         return "(x api-flowspec (%d %d) () x)" % fam
+    # fields that are narrower on the wire than in the message: in range (must be listed as sent) or not (must be refused)
+    w = lambda: r.pick([0, 1, 2, 3, 4, 5, 6, 7, 8, 24, 33, 128, 129, 255, 256, 257, 65535, 65536, 65537, 16777216, 4294967295])
+    if k == 11:
+        return "(x api-sr-policy-encap (%d %d %d) () x)" % (r.below(5), w(), w())
+    if k == 12:
+        return "(x api-ls-attr (%d %d %d %d %d %d) () x)" % (r.below(3), w(), w(), w(), w(), w())
+    if k == 13:
+        return "(x api-ls-nlri (%d %d %d) () x)" % (r.below(3), r.pick([1, 2, 3, 7, 255, 256, 258, 4294967295]), w())
+    if k == 14:
+        fam = r.pick([(1, 133), (2, 133)])
+        return "(x api-flowspec-rules (%d %d %d %d %d) () x)" % (fam[0], fam[1], r.pick([0, 8, 24, 32, 64, 128, 256 + 24, 65536 + 8]),
+                                                              r.pick([0, 0, 8, 256, 65536 + 8]), r.pick([1, 0x81, 0x101, 65536 + 1]))
     fam = r.pick([(1, 1), (2, 1), (1, 133), (25, 70), (1, 128), (16388, 71)])
     return "(x api-prefix-family (%d %d %d) %s x)" % (fam[0], fam[1], r.pick([0, 8, 24, 32, 33, 128]), strs(1))
 
@@ -650,7 +671,8 @@ def gen_grpc(r):
         if tail:
             attrs.append("(as-path (%s))" % tail)
         return "(grpc %s (%s) (vrps %s))" % (nlri, " ".join(attrs), " ".join(vrps))
-    return "(grpc %s (%s))" % (nlri, " ".join(attrs))
+    # one in three of the rest: the same request into a VRF (table_type VRF; listed from the VRF's view)
+    return "(%s %s (%s))" % ("grpc-vrf" if r.chance(1, 3) else "grpc", nlri, " ".join(attrs))
 
 
 def gen(seed, n, tier):
